@@ -92,7 +92,7 @@ impl Property for C13Prop {
 
     fn workloads(&self, tier: Tier) -> u64 {
         match tier {
-            Tier::Quick => 6_000,
+            Tier::Quick => 25_000,
             Tier::Thorough => 120_000,
         }
     }
